@@ -141,7 +141,7 @@ void history(vf::Ctx & c)
   bool anchored = false, constructed = false;
   Geo ctr{0, 0, 0};
   int anchorChanges = 0, conversionsAfterChange = 0;
-  bool sawReset = false, sawAuto = false, sawReanchor = false, antiAnchor = false;
+  bool sawReset = false, sawAuto = false, sawReanchor = false, antiAnchor = false, sameLatLon = false;
   for (int k = 0; k < n; ++k) {
     Op op;
     op.p.setZero(); op.g = Geo{0, 0, 0};
@@ -157,7 +157,14 @@ void history(vf::Ctx & c)
       case CONSTRUCT: constructed = true; anchored = false; break;
       case CONSTRUCT_ANCHOR:
       case SET_ANCHOR:
-        op.g = genAnchor(c);
+        if (op.kind == SET_ANCHOR && anchored && c.s.flag("same_place_other_height", 1, 4)) {
+          // re-anchor at exactly the same latitude / longitude, only the height changes
+          op.g = ctr;
+          op.g.h = c.s.r("a_h", -500.0, 9000.0);
+          sameLatLon = true;
+        } else {
+          op.g = genAnchor(c);
+        }
         if (anchored) {sawReanchor = true;}
         constructed = true; anchored = true; ctr = op.g; anchorChanges++;
         break;
@@ -188,6 +195,7 @@ void history(vf::Ctx & c)
   if (sawReanchor) {c.label("re-anchor");}
   if (sawReset) {c.label("reset");}
   if (antiAnchor) {c.label("antimeridian-anchor");}
+  if (sameLatLon) {c.label("re-anchor-same-lat-lon-other-height");}
   c.nontrivial(conversionsAfterChange > 0);
   c.commit();
 
